@@ -493,7 +493,8 @@ def _call(it, name, args, st):
                 outs.append(("ret", NONE if item is None else some(item), st2))
             return outs
         if m in ADAPTORS and len(vals) == 2:
-            inner = recv if isinstance(recv, Ref) and m == "by_ref" else tv
+            # an adaptor built on a `&mut I` keeps driving that iterator (`(&mut it).take(n)`): hold the reference
+            inner = recv if isinstance(recv, Ref) else tv
             second = vals[1]
             if m in ("zip", "chain"):
                 second = to_iter(it, args[1], st)
